@@ -32,6 +32,10 @@ EndTxn(p, commit) == Len(log) < MaxBatches /\ open[p] >= 0
                     /\ log' = Append(log, Batch(p, TRUE, 1, IF commit THEN "commit" ELSE "abort"))
                     /\ aborted' = (IF commit THEN aborted ELSE Append(aborted, [pid |-> p, first |-> open[p], last |-> LEO]))
                     /\ open' = [open EXCEPT ![p] = -1] /\ UNCHANGED <<compactions, dupes>>
+(* a transaction that is ended without any data (AddPartitionsToTxn, then EndTxn): the marker is written, nothing enters the aborted index *)
+EmptyEnd(p, commit) == Len(log) < MaxBatches /\ open[p] = -1
+                    /\ log' = Append(log, Batch(p, TRUE, 1, IF commit THEN "commit" ELSE "abort"))
+                    /\ UNCHANGED <<open, aborted, compactions, dupes>>
 (* compaction removes a non-empty set of records from a closed data batch (never from the last batch: the active segment) *)
 Compact(i, gone) == compactions < MaxCompact /\ i < Len(log) /\ log[i].ctrl = "none" /\ gone # {} /\ gone \subseteq log[i].present
                     /\ (log[i].txn => open[log[i].pid] = -1 \/ open[log[i].pid] > log[i].base)   \* only records of ended transactions
@@ -39,7 +43,7 @@ Compact(i, gone) == compactions < MaxCompact /\ i < Len(log) /\ log[i].ctrl = "n
 (* a retried idempotent batch (same producer, same sequence) is answered with its original offset and not appended *)
 RetryLast == log # <<>> /\ dupes < 1 /\ dupes' = dupes + 1 /\ UNCHANGED <<log, open, aborted, compactions>>
 Next == \/ \E n \in 1..MaxRecs : ProducePlain(n) \/ \E p \in Pids : ProduceTxn(p, n)
-        \/ \E p \in Pids, c \in BOOLEAN : EndTxn(p, c)
+        \/ \E p \in Pids, c \in BOOLEAN : EndTxn(p, c) \/ EmptyEnd(p, c)
         \/ \E i \in DOMAIN log : \E gone \in SUBSET log[i].present : Compact(i, gone)
 Spec == Init /\ [][Next]_vars
 (* ---------------- derived truth about transactions ---------------- *)
